@@ -75,8 +75,8 @@ type vPrbObs struct {
 	BodyHead  string `json:"body_head,omitempty"`
 	ACAO      string `json:"acao"`
 	Panic     string `json:"panic,omitempty"`
-	Read      int64  `json:"read"`      // bytes the handler took from the request body
-	Offered   int64  `json:"offered"`   // bytes the request body had (-1 endless)
+	Read      int64  `json:"read"`       // bytes the handler took from the request body
+	Offered   int64  `json:"offered"`    // bytes the request body had (-1 endless)
 	HandlerMS int64  `json:"handler_ms"` // time inside the handler
 	Ports     []int  `json:"ports"`      // UDP ports announced in the answer
 	Bound     bool   `json:"bound"`      // ... were bound when the response arrived
@@ -87,7 +87,6 @@ type vPrbObs struct {
 	AnsType   string `json:"ans_type,omitempty"`
 	LocalCand int    `json:"local_cand"` // candidates with a local/loopback/unspecified address left in the answer
 }
-
 
 var vPrbSeq int64
 
